@@ -187,7 +187,7 @@ def cases(seed):
     rng = np.random.RandomState(seed)
     out = []
     for d in (1, 3):
-        for n_part, ratio in ((32, 1.0), (64, 2.0), (16, 3.0)):
+        for n_part, ratio in ((32, 1.0), (64, 2.0), (16, 3.0), (15, 1.5), (13, 2.6)):
             for scale in (0.5, 4.0, 40.0, 4000.0):
                 for offset in (0.0, -2e5):
                     for path in ([0.0], [0.0, 0.0, 0.0], [0.0, 0.0, 0.05, 0.3], [0.0, 0.2, 0.9], [0.0, 0.5, 0.9995], [0.0, 0.4, 0.99995]):
@@ -243,6 +243,29 @@ def main():
             if r:
                 print(json.dumps({"reproduced": True, "tried": tried, "detail": r, "input": dict(what, volume_variation=dyn)}))
                 return
+    # a long history (N*T above 2**22, N not a multiple of any power-of-two block): weights / logz / ess of one Reweighter.run() against
+    # the independent evaluation (one evaluation only: the full ESS-limit search is too expensive at this size)
+    rl = np.random.RandomState(seed + 61)
+    T, n = 70, 1021
+    st = StateManager(1)
+    betas = np.r_[0.0, 0.0, np.sort(rl.uniform(0, 0.5, T - 2))]
+    for t in range(T):
+        u = rl.uniform(0.05, 0.95, (n, 1))
+        st.update_current({"u": u, "x": u.copy(), "logl": -rl.gamma(2.0, 2.0 / (1 + 3 * betas[t]), n), "beta": float(betas[t]), "logz": float(-0.3 * betas[t] + 0.01 * rl.randn()),
+                           "iter": t, "calls": 0, "ess": 1.0, "assignments": np.zeros(n, dtype=int)})
+        st.commit_current_to_history()
+    st.set_current("beta", float(betas[-1]))
+    st.set_current("iter", T)
+    rw = Reweighter(st, None, n_particles=n, ess_ratio=2.0, volume_variation=None)
+    tried += 1
+    try:
+        wl = rw.run()
+        r = coherence(st, wl, float(betas[-1]), 2.0 * n, rw.ESS_TOLERANCE, False)
+    except Exception as e:
+        r = f"Reweighter.run raised {type(e).__name__}: {e}"
+    if r:
+        print(json.dumps({"reproduced": True, "tried": tried, "detail": f"long history (T={T}, N={T * n}, N*T={T * T * n}): {r}", "input": {"T": T, "n": n, "seed": seed + 61}}))
+        return
     for what, batches, ldtype in dtype_cases(seed):
         for dyn in (None, 0.5):
             st = fill(what["d"], batches, what["path"][-1], len(what["path"]), ldtype=ldtype)
